@@ -536,3 +536,30 @@ func checkBucketConstruction(w *World, r *Report, c *Component, rule string) {
 	}
 	r.Check(found, "G4", "bucket constructed in the constructor", "-", "")
 }
+
+// checkWrappedSinkProtocol: the motion sink of the daemon is the ThrottledRecorder; the file recorder it wraps is a sink
+// too. Driven by a protocol-conforming client, over all placements of wrapped start/write/stop failures, the wrapped
+// recorder sees start-only-when-closed / write-only-when-open, and the throttler's flag mirrors "wrapped file open" at
+// every quiescent state (so that after any failure the next event is handled from a consistent state).
+func checkWrappedSinkProtocol(w *World, r *Report, ruleProto, ruleFlag string) {
+	runs, err := getThrottleRuns(w)
+	if err != nil {
+		r.Unknown(ruleProto, "throttle.ThrottledRecorder", "-", "role resolution failed: "+err.Error())
+		return
+	}
+	run := runs.fault
+	reportRun(r, run, map[string]string{"Y1": ruleProto, "Y2": ruleProto, "nil-sink": ruleProto}, "G3")
+	n := 0
+	for _, ev := range run.sortedEvents() {
+		if strings.HasPrefix(ev.Kind, "sink:") {
+			n++
+		}
+	}
+	r.Check(n >= 3, ruleProto, "throttled motion sink: wrapped recorder call sites explored under all failure placements", "-", fmt.Sprint(n))
+	inv := inferSinkInvariant(run)
+	if inv[0].pred == "" {
+		r.Fail(ruleFlag, "throttled motion sink: recording flag <=> wrapped file open", "-", "no flag of the throttler is perfectly correlated with the wrapped recorder's state (after a failed start the throttler believes a file is open: the following frames go to a recorder with no open file)", inv[0].counter)
+	} else {
+		r.Pass(ruleFlag, "throttled motion sink: recording flag <=> wrapped file open", "-", inv[0].pred+" <=> wrapped open")
+	}
+}
